@@ -242,7 +242,7 @@ func TestPropServiceLevel(t *testing.T) {
 					<-done
 				}
 			}()
-			pubs := conn.Log()[before:]
+			pubs := conn.LogFrom(before)
 			switch o.Op {
 			case "token", "tokenid":
 				validCID := refmux.ValidPart(o.CID)
